@@ -1,6 +1,6 @@
 (* Extraction of the C15 checker model for the correspondence run (ExtrOcamlBasic only). *)
 From Coq Require Import Extraction ExtrOcamlBasic List NArith ZArith.
-From MirV Require Import Mir.Opcode C15.Defs gen.InsnDescs C15.Validate.
+From MirV Require Import Mir.Opcode C15.Defs gen.InsnDescs C15.Validate C15.DocModes.
 Import ListNotations.
 
 (* decimal digits (most significant first) to Z: numbers cross the OCaml boundary as strings *)
@@ -11,4 +11,4 @@ Definition n_of_digits (ds : list N) : N := fold_left (fun acc d => (acc * 10 + 
 
 Extraction Language OCaml.
 Extraction "c15x.ml" step init_state insn_descs row_name error_names error_num z_of_digits n_of_digits
-  opcode_num all_opcodes.
+  opcode_num opcode_of_num all_opcodes doc_func_ok insn_in_domain res_types_ok.
